@@ -86,6 +86,10 @@ pub const DECLS: &[(&str, &str)] = &[
   ("const-call", "function mk@N(): @R { return null as any; }\nexport const c@N = mk@N();\n"),
   ("let-annotated", "export let l@N: @R;\n"),
   ("destructuring", "const obj@N = { a: 1 };\nexport const { a: d@N } = obj@N;\n"),
+  // function-valued initialisers without annotations: leavable as expressions, but their parameters / bodies are not explicit
+  ("class-prop-untyped-arrow", "function disp@N(r: unknown): number { return 1; }\nexport class C@N { handle = (req) => disp@N(req); fallback = function (req) { return disp@N(req); }; }\n"),
+  ("class-prop-typed-arrow-no-return", "function disp@N(r: unknown): number { return 1; }\nexport class C@N { handle = (req: @R) => disp@N(req); static sh = async (req: @R) => { await disp@N(req); }; }\n"),
+  ("const-untyped-arrow-in-object", "function disp@N(r: unknown): number { return 1; }\nexport const api@N = { run: (req) => disp@N(req), n: 1 };\n"),
   ("class-members", "export class C@N {\n  p: @R = null as any;\n  static s: number = 1;\n  readonly ro?: @R;\n  constructor(public q: @R, private r: number, protected t?: @R) {}\n  m(a: @R, b: number = 1, c?: @R, ...rest: @R[]): @R { return a; }\n  get g(): @R { return this.p; }\n  set g(v: @R) {}\n  private priv(x: number): void {}\n  private pp: number = 1;\n  #hidden: number = 1;\n  #hm(): void {}\n  protected prot(): @R { return this.p; }\n  static sm(): void {}\n  [key: string]: any;\n}\n"),
   ("class-extends-private", "class Base@N { b: @R = null as any; bm(): void {} }\nexport class C@N extends Base@N { constructor() { super(); } x: number = 1; }\n"),
   ("class-implements", "export class C@N implements PubI@N { a: @R = null as any; }\nexport interface PubI@N { a: @R }\n"),
